@@ -153,3 +153,11 @@ Print Assumptions C06_src_time_types.
 Theorem C06_src_buffer_types : forall g, type_in g Source.BUFFER_GEOMETRY_TYPES = is_buffered_type g.
 Proof. exact SrcAffinity.src_buffer_types. Qed.
 Print Assumptions C06_src_buffer_types.
+
+(* the bounds these functions read (py_compute_bounds in the generated text) are what compute_bounds and
+   geometry_to_shapely, as read from the source, compute for every valid geometry *)
+From SE Require Gen.SrcConversion.
+Theorem C06_src_compute_bounds : forall g,
+  validb g = true -> Source.compute_bounds_py g = py_compute_bounds g.
+Proof. exact SrcConversion.src_compute_bounds_valid. Qed.
+Print Assumptions C06_src_compute_bounds.
